@@ -149,6 +149,12 @@ def c10_classifier():
                 info["why"] = "an accepted dictionary panicked while tokenizing"
         else:
             tags.append("tokenize=ok")
+            if pflags(extra).get("C03") == "0":
+                # clause "never silently mis-assign character categories": the candidates of the accepted dictionary are not
+                # what its definition files say (last covering char.def range, the unk.def entries of that category)
+                info["prop_fail"] = "accepted-dictionary-miscategorises"
+                info["why"] = ("the lattice of an accepted dictionary holds candidates that differ from the reading of its definition files "
+                               "(C03 predicate: last covering char.def range line or DEFAULT, unk.def entries of the first category)")
         return info
 
     def on_def(line, impl, mobs, extra):
@@ -676,7 +682,17 @@ def cli_classifier(inner, prefixes):
             diffs = impl[len("differs:"):].split(",") if impl.startswith("differs:") else []
             rel = [d for d in diffs if d.startswith(prefixes)]
             info = {"tags": ["via=cli-process", "cli=" + ("differs" if rel else "same")], "nontrivial": True, "ignore": not rel}
-            if rel:
+            rejected = [d for d in rel if d.startswith("reorder-mapping-rejected")]
+            if rejected:
+                # C13: "the output of the reorder tool is always accepted by the map tool" - a statement about the two programs
+                # themselves; the case (sentences + dictionary) is the failing input
+                t = line.split()
+                info["prop_fail"] = "map-rejects-the-output-of-reorder"
+                info["why"] = ("the files written by the real `reorder` program were rejected by the real `map` program (or by "
+                               "map_connection_ids_from_iter): " + ",".join(rejected) +
+                               f" (re-run: VERIF_CLI_BIN=harness/target-cli/release VERIF_CLI_WORK=work/x harness/target/debug/vharness cli {t[1].split('.')[0]} <n>)")
+                info["ignore"] = False
+            elif rel:
                 t = line.split()
                 info["corr_fail"] = ("a command-line program disagrees with the library call it wraps: " + ",".join(rel) +
                                      f" (re-run: VERIF_CLI_BIN=harness/target-cli/release VERIF_CLI_WORK=work/x harness/target/debug/vharness cli {t[1].split('.')[0]} <n>)")
